@@ -725,6 +725,9 @@ def op_compress_lossless(w, s):
             if s.get("via_config"):
                 obj.compress_config = CompressConfig(CompressCriteria.fixed, max_bonddim=m)
                 obj.compress()
+            elif s.get("per_bond"):
+                # a limit per bond: every bond may keep what it has (non-uniform list, still lossless)
+                obj.compress(temp_m_trunc=[int(b) + s.get("slack", 0) for b in obj.bond_dims])
             else:
                 obj.compress(temp_m_trunc=m)
     except Exception as ex:
@@ -804,6 +807,17 @@ def op_truncate(w, s):
             obj.compress_config = CompressConfig(CompressCriteria.fixed, max_bonddim=s["m"])
             out = obj.compress(ret_s=ret_s)
             limit = list(obj.compress_config.max_dims)
+        elif mode in ("config_perbond", "config_both_perbond"):
+            # a fixed maximum PER BOND given through the configuration object
+            limit = list(s["mlist"])[:n + 1]
+            if len(limit) < n + 1:
+                return "skipped"
+            if mode == "config_perbond":
+                obj.compress_config = CompressConfig(CompressCriteria.fixed, max_bonddim=max(limit))
+            else:
+                obj.compress_config = CompressConfig(CompressCriteria.both, threshold=s["thr"], max_bonddim=max(limit))
+            obj.compress_config.max_dims = np.array(limit, dtype=int)
+            out = obj.compress(ret_s=ret_s)
         elif mode == "config_threshold":
             thr = s["thr"]
             obj.compress_config = CompressConfig(CompressCriteria.threshold, threshold=thr)
@@ -1104,6 +1118,14 @@ def p_mpo(w, rnd):
             terms = [t]
         else:
             return None
+    if rnd.random() < w.knobs.get("density_prob", 0.0):
+        t2 = gm.gen_density_terms(rnd, spec["sites"], spec["qn_size"])
+        if t2:
+            terms, charge = t2, [0] * spec["qn_size"]
+    if rnd.random() < 0.25:
+        # model Hamiltonians with EQUAL couplings (Hubbard / Heisenberg-like): exact cancellations and degenerate decompositions
+        v = rnd.choice([1.0, 1.0, -1.0, 0.5, 2.0])
+        terms = [dict(t, factor=[v if t["factor"][0] >= 0 or rnd.random() < 0.7 else -v, 0.0]) for t in terms]
     return {"op": "mpo", "mid": mid, "terms": terms, "algo": rnd.choice(["qr", "Hopcroft-Karp", "Hungarian"]),
             "offset": rnd.choice([0.0, 0.0, round(rnd.uniform(-1, 1), 3)]) if charge == [0] * spec["qn_size"] else 0.0, "out": w.new_handle()}
 
@@ -1290,8 +1312,11 @@ def p_compress_lossless(w, rnd):
     hs = w.handles(pred=lambda e: nonzero(e) and sweep_ready(e.obj))
     if not hs:
         return None
-    return {"op": "compress_lossless", "a": rnd.choice(hs), "slack": rnd.choice([0, 0, 1, 5]), "twice": rnd.random() < 0.3,
-            "via_config": rnd.random() < 0.3}
+    s = {"op": "compress_lossless", "a": rnd.choice(hs), "slack": rnd.choice([0, 0, 1, 5]), "twice": rnd.random() < 0.3,
+         "via_config": rnd.random() < 0.3}
+    if not s["via_config"] and rnd.random() < 0.35:
+        s["per_bond"] = True
+    return s
 
 
 @prop("normalize")
@@ -1312,10 +1337,10 @@ def p_truncate(w, rnd):
     a = rnd.choice(hs)
     n = len(w.h[a].obj)
     mx = max(w.h[a].obj.bond_dims)
-    mode = rnd.choice(["temp_int", "temp_list", "config_fixed", "config_threshold", "config_both"])
+    mode = rnd.choice(["temp_int", "temp_list", "config_fixed", "config_threshold", "config_both", "config_perbond", "config_both_perbond"])
     s = {"op": "truncate", "a": a, "mode": mode, "m": rnd.randint(1, max(1, mx)), "side": rnd.choice("LR"),
          "thr": rnd.choice([0.5, 0.2, 0.05, 1e-2, 1e-3, 1e-6]), "ret_s": rnd.random() < 0.4, "out": w.new_handle()}
-    if mode == "temp_list":
+    if mode in ("temp_list", "config_perbond", "config_both_perbond"):
         s["mlist"] = [1] + [rnd.randint(1, max(1, mx)) for _ in range(n - 1)] + [1]
     return s
 
@@ -1395,10 +1420,10 @@ def p_spill(w, rnd):
 # =====================================================================================================
 # header generation
 
-def gen_header(rnd, nmodels=(1, 2), flavours=None, maxdim=160, nmax=5):
+def gen_header(rnd, nmodels=(1, 2), flavours=None, maxdim=160, nmax=5, nmin=2):
     models = []
     for _ in range(rnd.randint(*nmodels)):
-        spec = gm.gen_sites(rnd, flavour=rnd.choice(flavours) if flavours else None, nmin=2, nmax=nmax, maxdim=maxdim)
+        spec = gm.gen_sites(rnd, flavour=rnd.choice(flavours) if flavours else None, nmin=nmin, nmax=nmax, maxdim=maxdim)
         spec["ham"] = gm.gen_hamiltonian(rnd, spec["sites"], spec["qn_size"])
         models.append(spec)
     return {"models": models, "knobs": {}}
